@@ -65,15 +65,22 @@ TreeEq(T, a, b) ==
     \/ /\ T[a].kid = T[b].kid /\ Len(T[a].ch) = Len(T[b].ch)
        /\ (T[a].ch = <<>> => T[a].t = T[b].t)
        /\ \A k \in 1..Len(T[a].ch) : TreeEq(T, T[a].ch[k], T[b].ch[k])
-\* LegalB: a legal alignment in which every occurrence of a captured variable named in `bind` (name :> node, the
-\* bindings the match reported) stands for code identical to that binding
+\* LegalB: a legal alignment in which every occurrence of a captured variable named in `bind` (the bindings the match
+\* reported: bind.single = name :> node, bind.multi = name :> sequence of nodes) stands for code identical to that
+\* binding; for `$$$A` the run an occurrence absorbs and the binding agree on their named nodes, one by one
+\* (separators aside)
+MultiOK(p, T, nodes, bind) ==
+    (p.mv.ty = "multicap" /\ p.mv.name \in DOMAIN bind.multi) =>
+        LET a == NamedOf(T, nodes)  b == NamedOf(T, bind.multi[p.mv.name]) IN
+        Len(a) = Len(b) /\ \A k \in 1..Len(a) : TreeEq(T, a[k], b[k])
 RECURSIVE LegalB(_, _, _, _, _, _)
 RECURSIVE AlignsB(_, _, _, _, _, _, _, _)
 AlignsB(PT, T, s, gs, cs, i, j, bind) ==
     IF i > Len(gs) THEN
         \A k \in j..Len(cs) : SkipCandIn(T[cs[k]], s) \/ SkipCandTail(T[cs[k]], s)
     ELSE IF IsEllipsis(PT[gs[i]]) THEN
-        \E m \in j..(Len(cs) + 1) : AlignsB(PT, T, s, gs, cs, i + 1, m, bind)
+        \E m \in j..(Len(cs) + 1) : /\ MultiOK(PT[gs[i]], T, SubSeq(cs, j, m - 1), bind)
+                                    /\ AlignsB(PT, T, s, gs, cs, i + 1, m, bind)
     ELSE
         \/ (SkipGoalP(PT[gs[i]], s) \/ AfterEllipsis(PT, gs, i)) /\ AlignsB(PT, T, s, gs, cs, i + 1, j, bind)
         \/ j <= Len(cs) /\ SkipCandIn(T[cs[j]], s) /\ AlignsB(PT, T, s, gs, cs, i, j + 1, bind)
@@ -81,7 +88,7 @@ AlignsB(PT, T, s, gs, cs, i, j, bind) ==
 LegalB(PT, T, s, g, c, bind) ==
     LET p == PT[g] n == T[c] IN
     CASE p.ty = "M" -> /\ ((p.mv.ty \in {"capture", "dropped"} /\ p.mv.named) => n.nm)
-                       /\ ((p.mv.ty = "capture" /\ p.mv.name \in DOMAIN bind) => TreeEq(T, c, bind[p.mv.name]))
+                       /\ ((p.mv.ty = "capture" /\ p.mv.name \in DOMAIN bind.single) => TreeEq(T, c, bind.single[p.mv.name]))
       [] p.ty = "T" -> KindsMatch(p.kid, n.kid) /\ (~p.nm \/ s = "signature" \/ p.t = n.t)
       [] OTHER ->
            /\ KindsMatch(p.kid, n.kid)
